@@ -187,6 +187,28 @@ def h : Handler := fun op j =>
             showNatList ck2 ++ "|" ++ showRatList a ++ "|" ++ showRatList b,
             showRes (upperConcBounds s init)]))
       | _ => pure (";;".intercalate base)
+  | "preserv_cert" => do
+      -- the model's decidable check of the reducer hypothesis for the conservation block (weights P, L from the harness)
+      let s ← getSys j
+      let c0 ← getRatList j "init"
+      let getMat := fun (k : String) => do (← getArr j k).mapM fun r => do (← asArr r).mapM asRat
+      let P ← getMat "P"
+      let L ← getMat "L"
+      let red ← getReducedRat j "redP"
+      pure (toString (preservCert s c0 P L red))
+  | "equil_cert" => do
+      -- decidable check of the reducer hypothesis for the equilibrium block in log coordinates (weights from the harness)
+      let s ← getSys j
+      let m ← getNat j "m"
+      let getMat := fun (k : String) => do (← getArr j k).mapM fun r => do (← asArr r).mapM asRat
+      match j.getObjVal? "primes" with
+      | .ok (.arr _) =>
+          -- full certificate: also K_i = ∏ p_k^E_ik for the positive integer bases `primes`
+          let ps ← (← getIntList j "primes").mapM fun i => if i < 0 then .error "!bad-arg:primes" else pure i.toNat
+          let Eint ← (← getArr j "Eint").mapM fun r => do (← asArr r).mapM asInt
+          pure (toString (equilCertFull s ps Eint (← getRatList j "ks") (← getMat "P") (← getMat "L") (← getMat "A2") (← getMat "E2")))
+      | _ =>
+      pure (toString (equilCertSys s m (← getMat "P") (← getMat "L") (← getMat "E") (← getMat "A2") (← getMat "E2")))
   | "rp_f" => do
       -- Lin / Square with rref_equil = False and either rref_preserv: exact over ℚ
       let s ← getSys j
